@@ -215,7 +215,7 @@ class Property:
     assumptions: List[str] = field(default_factory=list)
     wanted_labels: List[str] = field(default_factory=list)
     fuzz: List[str] = field(default_factory=list)  # obligations additionally driven by atheris (thorough tier)
-    fuzz_runs: int = 20000
+    fuzz_runs: int = 8000
 
     def obligation(self, name: str) -> Obligation:
         for o in self.obligations:
